@@ -255,6 +255,46 @@ mod imp {
         o
     }
 
+    /// statements calling the character natives on `sv` in the fixed order of Model/Utf8Obs.v nat_obs;
+    /// style 0 = method syntax, 1 = qualified `string.f(sv, ..)`
+    fn nat_program(n: usize, blen: usize, pad_lit: &str, s1: char, style: u64) -> String {
+        let call = |f: &str, args: &str| if style == 0 { format!("sv.{}({})", f, args) }
+                   else if args.is_empty() { format!("string.{}(sv)", f) } else { format!("string.{}(sv, {})", f, args) };
+        let n = n as i64;
+        let mut exprs: Vec<String> = Vec::new();
+        for i in -1..=n + 1 { exprs.push(call("char_at", &i.to_string())); }
+        for (a, l) in [(0, n), (1, 2), (n - 1, 5), (n, 1), (n + 1, 1), (0, 0), (-1, 2), (2, -1), (1, n)] {
+            exprs.push(call("substr", &format!("{}, {}", a, l)));
+        }
+        exprs.push(call("reverse", ""));
+        exprs.push(call("pad_left", &format!("{}, pd", n - 1)));
+        exprs.push(call("pad_left", &format!("{}, pd", n + 2)));
+        exprs.push(call("pad_right", &format!("{}, pd", n + 2)));
+        exprs.push(call("pad_right", "0, pd"));
+        for k in [-1, 0, 1, 2] { exprs.push(call("repeat", &k.to_string())); }
+        exprs.push(call("chars", ""));
+        exprs.push(call("split", "\"\""));
+        exprs.push(call("concat", "pd"));
+        let bl = blen as i64;
+        for i in [-1, 0, bl - 1, bl] { exprs.push(call("byte_at", &i.to_string())); }
+        let mut o = format!("let pd = \"{}\"\n", pad_lit);
+        for e in exprs { o.push_str(&format!("print({}); print(\"{}\")\n", e, s1)); }
+        o
+    }
+
+    /// observation of the natives program: every printed field framed, the last four as integers
+    fn run_nat(src: &str, s1: char, opt: u32, budget: u64) -> Vec<i128> {
+        let r = run_program(src, opt, (0, 0), budget, None);
+        if r.class != "ok" { return vec![-9, class_code(&r.class)]; }
+        let Some(body) = r.output.strip_suffix(s1) else { return vec![-8, 1] };
+        let fields: Vec<&str> = body.split(s1).collect();
+        if fields.len() < 4 { return vec![-8, 2]; }
+        let mut o = Vec::new();
+        for f in &fields[..fields.len() - 4] { o.extend(bytes_of(f)); }
+        for f in &fields[fields.len() - 4..] { match f.parse::<i128>() { Ok(v) => o.push(v), Err(_) => return vec![-8, 3] } }
+        o
+    }
+
     fn class_code(c: &str) -> i128 {
         match c {
             "runtime:IndexOutOfBounds" => -1,
@@ -349,6 +389,22 @@ mod imp {
                     err_srcs.push(wrap(&cons, &body, form, local));
                 }
                 println!("G\t{}\t{}/{}/{}\t{}", case_id, form, idx_form, if local { "local" } else { "global" }, esc(&main_src));
+                // the character natives on the same string (not for the two long strings: n + 30 calls per program)
+                if n <= 60 {
+                    let pads: [&[u32]; 7] = [&[0x2A], &[0xE9], &[0x1F600], &[], &[0x61, 0x62], &[0x20AC, 0x78], &[0x30]];
+                    let ps: Vec<u32> = rng.pick(&pads[..]).to_vec();
+                    let mut both = cs.clone(); both.extend(ps.iter());
+                    let (n1, _) = pick_seps(&both);
+                    let style = rng.below(2);
+                    let blen = to_string(cs).len();
+                    let nat_src = wrap(&cons, &nat_program(n, blen, &lit(&ps, &mut rng), n1, style), form, local);
+                    println!("H\t{}\t{}\t{}", case_id, form, esc(&nat_src));
+                    for &o in &opts {
+                        let obs = run_nat(&nat_src, n1, o, budget);
+                        println!("N\t{}:{}:{}:style{}:O{}\tQNat {} {}\t{}", case_id, form, if local { "local" } else { "global" }, style, o,
+                                 coq_list(cs), coq_list(&ps), join(&obs));
+                    }
+                }
                 for &o in &opts {
                     let obs = run_case(cs, &main_src, &err_srcs, s1, s2, o, budget);
                     // which for-each opcode did the compiler select for the string?  (chr_loop has one genuine Vec loop)
